@@ -116,6 +116,7 @@ class E1:
         self.ins = self.tr.sym_inputs(prefix)
         if overrides:
             self.ins = overrides(self.ins)
+        self.numeric_consts = numeric_consts
         self.outs, self.ctx = self.tr.run(self.ins, Ctx(numeric=True) if numeric_consts else None)
         self.raw_outs = self.outs
         if post is not None:
@@ -290,7 +291,7 @@ class E1:
                     b[idx] = z3.Real(nm) if k == "float" else (z3.Int(nm) if k == "int" else z3.Bool(nm))
             lB.append(b)
         insB = jax.tree_util.tree_unflatten(td, lB)
-        ctxB = Ctx(tag="B_")
+        ctxB = Ctx(tag="B_", numeric=bool(getattr(self, "numeric_consts", False)))
         outsB, ctxB = self.tr.run(insB, ctxB)
         return insB, outsB, ctxB
 
